@@ -477,10 +477,26 @@ func (fr *Frame) baseLoc(st *State, x ast.Expr) *Loc {
 	return fr.evalLocOrTemp(st, x)
 }
 
+// derefCheck: under `option nilcheck` a dereference of a pointer whose nil-ness is determined inside jiva code
+// (result of a jiva call, a local) must be proved non-nil. Parameters, heap-loaded fields and results of
+// external calls are assumed non-nil ("optimistic nil", listed in the evidence).
 func (fr *Frame) derefCheck(st *State, p *Term, n ast.Node) {
-	if fr.top.fc != nil && fr.top.fc.Options["nilcheck"] != "" {
-		fr.e.oblige(fr, st, "nil", "", fr.site("nil", n), Neq(p, IntLit(0)), n, nil, "dereference")
+	if fr.top.fc == nil || fr.top.fc.Options["nilcheck"] == "" {
+		return
 	}
+	switch {
+	case p.Op == "select", p.Op == "app", p.Op == "lit":
+		return
+	case p.Op == "var" && (strings.HasPrefix(p.Name, "p$") || strings.HasPrefix(p.Name, "rx$") || strings.HasPrefix(p.Name, "new$") || strings.HasPrefix(p.Name, "recv")):
+		return
+	}
+	goal := Neq(p, IntLit(0))
+	if p.Op == "ite" && p.Args[1].Op == "select" && p.Args[2].IsLit() {
+		// m[k] of a map of pointers: stored pointers are assumed non-nil; the key must be present
+		goal = p.Args[0]
+	}
+	fr.e.oblige(fr, st, "nil", "", fr.site("nil", n), goal, n, nil, "dereference of "+exprString(n.(ast.Expr)))
+	st.Assume(Neq(p, IntLit(0)))
 }
 
 // walkFields follows a selection's field path from base.
